@@ -569,7 +569,8 @@ impl Scenario for Tm {
                 }
             }
             Kind::ClientPing => {
-                let kk = self.cfg.ep.client_keepalive as u32;
+                // the period in force is the server's when the CONNACK carries a Server Keep Alive (v5)
+                let kk = self.cfg.ep.client_connack_props.iter().find_map(|(id, v)| if let (0x13, crate::refmqtt::PVal::U16(s)) = (id, v) { Some(*s as u32) } else { None }).unwrap_or(self.cfg.ep.client_keepalive as u32);
                 // a response that falls due while the application has a streamed publish open cannot be written and
                 // ends the connection (C08 allows exactly that); it is not a timer matter
                 if other_stop && self.stream_span.is_some() && stops.iter().all(|s| s.contains("ExpectPayload")) {
@@ -737,6 +738,13 @@ pub fn configs(tier: Tier) -> Vec<TmCfg> {
             v.push(TmCfg { ep: ep.clone(), kind: Kind::ClientPing, steady: None, horizon: 14, alphabet: vec![Busy, Done, StreamStart, StreamEnd], max_events: 3, combined: false, prefill_busy: 0 });
             // the client's send window is exhausted (max_send 1, a publish the peer does not acknowledge, a second
             // sender parked behind it): the connection is alive, pings must go on (seeded change C20_r4)
+            // v5: the server imposes a shorter keep-alive in its CONNACK (Server Keep Alive 1 s against the client's
+            // 3 s): the client pings at the server's period (seeded change C20_r13 took the larger of the two)
+            if k == 3 && ver == Ver::V5 {
+                let mut sep = ep.clone();
+                sep.client_connack_props.push((0x13, crate::refmqtt::PVal::U16(1)));
+                v.push(TmCfg { ep: sep, kind: Kind::ClientPing, steady: None, horizon: 14, alphabet: vec![Busy, Done], max_events: 2, combined: false, prefill_busy: 0 });
+            }
             if k > 0 {
                 ep.max_send = 1;
                 v.push(TmCfg { ep, kind: Kind::ClientPing, steady: None, horizon: 14, alphabet: vec![SendQ1, Busy, Done], max_events: 3, combined: false, prefill_busy: 0 });
